@@ -150,6 +150,31 @@ func main() {
 			scs = append(scs, sc)
 		}
 	}
+	// messages that time out at nsqd and come again while their first copy is still waiting for the next sync (sync interval
+	// far longer than the message timeout, few messages): killed then, nothing nsqd no longer owes is missing
+	redeliverScs := func(n int) {
+		for i := 0; i < n; i++ {
+			o := scenOpts{Gzip: i%3 != 2, WorkDir: i%2 == 1, SyncMs: 60000, MaxInFlight: []int{200, 5}[i%2], DateFmt: "%Y-%m-%d_%H"}
+			sc := mk(o, "kill")
+			sc.Hups, sc.Foreign, sc.Probe, sc.Restart, sc.Post, sc.Pre = nil, 0, false, "", 0, 0
+			sc.NMsgs, sc.Backlog, sc.SpanMs = 3+rng.Intn(3), 1, 300
+			sc.StopMs = 4600 + rng.Intn(1500) // nsqd's message timeout here is 2 s: two rounds of redelivery have happened
+			scs = append(scs, sc)
+		}
+	}
+	// the output dir is a small file system that fills up: write(2) fails with ENOSPC from some message on, for good.  The tool
+	// may stop or go on trying; what nsqd no longer owes is in the files
+	fullScs := func(n int) {
+		for i := 0; i < n; i++ {
+			o := scenOpts{Gzip: false, WorkDir: false, SyncMs: []int{20, 150}[i%2], MaxInFlight: []int{1, 3}[i%2], DateFmt: "%Y-%m-%d_%H"}
+			sc := mk(o, "kill")
+			sc.Hups, sc.Foreign, sc.Probe, sc.Restart, sc.Post, sc.Pre = nil, 0, false, "", 0, 0
+			sc.NMsgs, sc.Backlog, sc.SpanMs = 16, 2, 400
+			sc.TinyKB = 64
+			sc.StopMs = 3500 + rng.Intn(1000)
+			scs = append(scs, sc)
+		}
+	}
 	dims := func(o *scenOpts) {
 		o.DateFmt = []string{"%Y-%m-%d_%H", "%Y%m%d_%H%M%S"}[rng.Intn(2)]
 		o.SyncMs = []int{20, 150, 1000}[rng.Intn(3)]
@@ -235,8 +260,12 @@ func main() {
 	}
 	if quick {
 		faultScs(8)
+		redeliverScs(4)
+		fullScs(2)
 	} else {
 		faultScs(48)
+		redeliverScs(24)
+		fullScs(8)
 	}
 	if len(kps) > 0 {
 		sort.Slice(kps, func(a, b int) bool { return fmt.Sprint(kps[a]) < fmt.Sprint(kps[b]) })
